@@ -500,13 +500,16 @@ def summarise(prop, tier, R, results, bounded, wall, write=True, verbose=False):
                             % n_dis)})
         evidence["coverage"]["samples"] = [{"bounded_check": b["name"], "bound": b["bound"], "cases": b.get("cases")} for b in bounded]
     shapes = [b for b in bounded if b.get("shape_check")]
-    if shapes and not results:
+    if shapes and (not results or claimed == "translation_validation"):
+        # (function contracts of the property, if any, stay listed under functions_under_contract; the decisive part is
+        # the shape-pair validation)
         evidence["level"] = "translation_validation"
         evidence["coverage"].update({
             "programs": sum(b.get("obligations", 0) for b in shapes),
             "disagreements_checked": sum(sum(f["count"] for f in (b.get("families") or {}).values()) + len(b.get("shape_failures", []))
                                          for b in shapes),
-            "explanation": "each program is one (input tree, output of the real rewrite) pair; the two denotations are "
+            "explanation": ("the obligations of %d function-contract units (functions_under_contract) are included in the count; " % len(results) if results else "")
+                           + "each program is one (input tree, output of the real rewrite) pair; the two denotations are "
                            "proved equal by z3 for EVERY index (documents arbitrary); shapes are bounded: "
                            + "; ".join(str(b.get("bound")) for b in shapes),
             "families_of_known_disagreements": dict((k, v["count"]) for b in shapes for k, v in (b.get("families") or {}).items())})
